@@ -216,7 +216,7 @@ def _merge(ctx, res):
         raise common.HarnessError(res["error"])
     for (stream, ep, outcome), k in res["counts"].items():
         ctx.count(stream, outcome, k)
-        if stream == "spell.accepted-vs-refused":
+        if stream in ("spell.accepted-vs-refused", "spell.different-values"):
             ctx.__dict__.setdefault("_c19_avr", {})[ep] = ctx.__dict__.setdefault("_c19_avr", {}).get(ep, 0) + k
             continue
         if outcome == "undriven":
@@ -341,6 +341,7 @@ def run(ctx):
     for part in range(2):
         tasks.append(("psbtdegenerate", (ctx.rng.getrandbits(60) << 1) | part, 10**6))
         tasks.append(("spell", ctx.rng.getrandbits(62), ctx.n(700, 8000)))
+        tasks.append(("coreimport", ctx.rng.getrandbits(62), ctx.n(1500, 40000)))
         tasks.append(("msdecode", (ctx.rng.getrandbits(60) << 1) | part, ctx.n(9000, 10**7)))
     if ctx.tier == "thorough":
         for name in sorted(S.CLASS_BIN):
@@ -435,8 +436,8 @@ def run(ctx):
     ctx.note(f"oracle: {len(tasks)} tasks in {time.time() - t0:.1f} s wall; cpu seconds per group: "
              + ", ".join(f"{g}={s:.0f}" for g, s in sorted(per_group_secs.items())))
     avr = ctx.__dict__.get("_c19_avr", {})
-    ctx.note("spellings: entry points that accept one spelling of a content and refuse another with a library exception "
-             f"(statistic, not a finding: a str is text, bytes are exact): {len(avr)}: "
+    ctx.note("spellings: entry points where two spellings of one content are answered differently, both inside the contract "
+             f"(accepted vs refused, or two values; informational: a str is text and is stripped, bytes are exact): {len(avr)}: "
              + ", ".join(f"{e.replace('btclib.', '')}×{n}" for e, n in sorted(avr.items())[:40]))
     driven = ctx.hist.get("calls_per_entry_point", {})
     undriven = sorted(e for e in eps if e not in driven)
